@@ -672,3 +672,31 @@ def _math_sqrt(eng, rec):
 
 
 _Model.ext_models.update({"math.pow": _math_pow, "math.log": _math_log, "math.sqrt": _math_sqrt})
+
+
+def _it_accumulate(eng, rec):
+    items = eng.iterate(rec.args[0])
+    func = rec.args[1] if len(rec.args) > 1 else rec.kwargs.get("func")
+    out = []
+    acc = rec.kwargs.get("initial")
+    started = acc is not None
+    if started:
+        out.append(acc)
+    for x in items:
+        if not started:
+            acc, started = x, True
+        else:
+            acc = eng.call(func, [acc, x], {}) if func is not None else eng.binop(ast.Add(), acc, x)
+        out.append(acc)
+    return out
+
+
+def _it_chain(eng, rec):
+    out = []
+    for a in rec.args:
+        out.extend(eng.iterate(a))
+    return out
+
+
+_Model.ext_models.update({"itertools.accumulate": _it_accumulate, "itertools.chain": _it_chain,
+                          "itertools.chain.from_iterable": lambda eng, rec: [y for x in eng.iterate(rec.args[0]) for y in eng.iterate(x)]})
